@@ -138,6 +138,8 @@ def build_traces(path, tier, seed):
         n = min(n, 4000)
         if (n - 1) * dt < 2.0:
             n = int(2.0 / dt) + 2
+        if i % 3 == 1:          # the number of samples is an exact multiple of the samples per second (a last, incomplete second)
+            n = min(4000, pps * int(max(3, round(secs))))
         kind = i % 4
         if kind == 0:       # everything below the gate
             a = rng.uniform(-0.2, 0.2, size=n)
@@ -149,6 +151,9 @@ def build_traces(path, tier, seed):
             a, _ = gen.record(rng, n, amp=float(rng.uniform(0.05, 3.0)))
         else:               # values exactly at the gate 0.025 g and just around it
             a = rng.choice([0.0, 0.025 * 9.81, -0.025 * 9.81, 0.2, 0.3], size=n) * 1.0
+        if i % 3 == 1:          # ... which is the only part of the record that reaches the gate
+            a = np.clip(a, -0.1, 0.1)
+            a[-max(2, pps // 2):] = rng.choice([-1, 1]) * rng.uniform(0.5, 2.0)
         dp, pps2, W = cavdp(a, dt)
         from eqsig import im
         import eqsig
